@@ -201,6 +201,63 @@ theorem msc_canonical_follows_td (C : Msc.Cfg) (ops : List Msc.Op) (g : Genesis)
   obtain ⟨_, _, _, _, hCI⟩ := (MscP.run_inv ops (MscP.empty_inv C)).gen g hg
   exact ⟨hCI.head, hCI.above, hCI.below, hCI.root.1, hCI.root.2, hCI.link⟩
 
+/-! ## polygon bor, reduced to one fixed span (`Poly.Model.LCPosa.Bor`)
+
+The trust root carries the validators (ascending addresses) and the proposer's position; no header is a sprint end or a
+sprint start, so the snapshot never changes (span changes, proposer rotation at sprint starts and Heimdall span proofs are
+NOT covered). `g.pv0.vals` are the validators, `g.pv0.height` the proposer index. -/
+
+/-- bor: an accepted header (in any state whatever) is sealed by a validator of the span; with `succ` = the number of
+places the signer stands behind the proposer in the ascending validator list, counted cyclically
+(`(signerIndex + N - proposerIndex) mod N`, in `[0, N)`, 0 exactly for the proposer), its difficulty is `N - succ` (so
+between 1 and N, N exactly in turn), it comes no earlier than `Period + succ · BackupMultiplier` after its parent, has
+the parent's number + 1 and carries no validator bytes. -/
+theorem bor_difficulty_matches_turn (C : Bor.Cfg) (st st' : St) (h : Hdr)
+    (hok : Bor.syncHeader C st h = (st', .ok)) :
+    ∃ g p signer, st.genesis = some g ∧ st.hdrs h.parent = some p ∧ p.hdr.number + 1 = h.number ∧
+      h.signer = some signer ∧ signer ∈ g.pv0.vals ∧ g.pv0.height < g.pv0.vals.length ∧
+      (g.pv0.vals)[Msc.indexOf signer g.pv0.vals]? = some signer ∧
+      (let N := g.pv0.vals.length
+       let succ := (Msc.indexOf signer g.pv0.vals + N - g.pv0.height) % N
+       succ < N ∧ (succ = 0 ↔ Msc.indexOf signer g.pv0.vals = g.pv0.height) ∧
+       h.difficulty = N - succ ∧ 1 ≤ h.difficulty ∧ h.difficulty ≤ N ∧
+       p.hdr.time + C.period + succ * C.backup ≤ h.time) ∧
+      h.extra.length = 32 + 65 ∧ h.mixZero = true ∧ h.uncleOk = true := by
+  rcases BorP.syncHeader_cases C st h with ⟨o, hsame, hne⟩ | ⟨p, g, st2, _, h2, h4, h3, _, _⟩
+  · rw [hsame] at hok
+    injection hok with _ ho
+    exact absurd ho hne
+  · obtain ⟨he, hm, hu, hnum, _, signer, hsig, hmem, hprop, htime, hdiff⟩ := BorP.verifyHeader_ok h3
+    obtain ⟨hlt, hget⟩ := BorP.indexOf_lt_of_mem signer g.pv0.vals hmem
+    have hs := BorP.succession_lt hprop hlt
+    have hmod := BorP.succession_mod hprop hlt
+    have hz := BorP.succession_zero_iff hprop hlt
+    refine ⟨g, p, signer, h4, h2, hnum, hsig, hmem, hprop, hget, ?_, he, hm, hu⟩
+    simp only
+    rw [← hmod]
+    exact ⟨hs, hz, hdiff, by omega, by omega, by omega⟩
+
+/-- bor: a stored header has a stored parent with the preceding number, its parent chain reaches the trust root, and
+its recorded total difficulty is the sum along that chain. -/
+theorem bor_stored_needs_parent (C : Bor.Cfg) (ops : List Bor.Op) (g : Genesis) (id : Id) (s : Stored)
+    (hg : (Bor.run C St.empty ops).genesis = some g) (hs : (Bor.run C St.empty ops).hdrs id = some s) (hne : id ≠ g.hdr.id) :
+    ∃ p l, (Bor.run C St.empty ops).hdrs s.hdr.parent = some p ∧ p.hdr.number + 1 = s.hdr.number ∧
+      Chain (Bor.run C St.empty ops) g s.hdr.parent (p :: l) ∧ s.td = sumDiff (s :: p :: l) :=
+  BorP.stored_link (BorP.run_inv ops BorP.empty_inv) hg hs hne
+
+/-- bor fork choice: as `canonical_follows_td`. -/
+theorem bor_canonical_follows_td (C : Bor.Cfg) (ops : List Bor.Op) (g : Genesis)
+    (hg : (Bor.run C St.empty ops).genesis = some g) :
+    let st := Bor.run C St.empty ops
+    (∃ head, st.canon st.height = some head.hdr.id ∧ st.hdrs head.hdr.id = some head ∧ head.hdr.number = st.height ∧
+      ∀ id s, st.hdrs id = some s → s.td ≤ head.td) ∧
+    (∀ i, st.height < i → st.canon i = none) ∧ (∀ i, i < g.hdr.number → st.canon i = none) ∧
+    st.canon g.hdr.number = some g.hdr.id ∧ g.hdr.number ≤ st.height ∧
+    (∀ i, g.hdr.number < i → i ≤ st.height → ∃ s, st.canon i = some s.hdr.id ∧ st.hdrs s.hdr.id = some s ∧
+      s.hdr.number = i ∧ st.canon (i - 1) = some s.hdr.parent) := by
+  obtain ⟨_, _, hCI⟩ := (BorP.run_inv ops BorP.empty_inv).gen g hg
+  exact ⟨hCI.head, hCI.above, hCI.below, hCI.root.1, hCI.root.2, hCI.link⟩
+
 /-! ## Non-vacuity: a concrete history satisfying the hypotheses above (`Poly.Proofs.LCPosa.Example`)
 
 Trust root 1 (number 5, set [a, b, c]); headers 2 (number 6), 3 (number 7, announces [a, b, d]), the competing 4
@@ -233,5 +290,16 @@ example :
     ((Msc.run ⟨8, 2⟩ St.empty Example.mscOps).hdrs 5).isNone = true ∧
     (Msc.run ⟨8, 2⟩ St.empty Example.mscOps).height = 10 ∧
     (Msc.syncHeader ⟨8, 2⟩ (Msc.run ⟨8, 2⟩ St.empty Example.mscOps) Example.m6).2 = .ok := by decide
+
+set_option maxRecDepth 100000 in
+/-- bor: validators [a, b, c, d], proposer c (index 2); header 2 sealed by a — which sorts BEFORE the proposer:
+succession (0 + 4 - 2) mod 4 = 2, difficulty 2, time 100 + 2 + 2·3 — is accepted; the same with difficulty 6 = N + 2 is not. -/
+example :
+    (Bor.syncHeader ⟨2, 3⟩ (Bor.run ⟨2, 3⟩ St.empty [.genesis Example.broot [Example.a, Example.b, Example.c, Example.d] 2])
+      (Example.bhdr 2 1 65 Example.a 2 108)).2 = .ok ∧
+    (Bor.syncHeader ⟨2, 3⟩ (Bor.run ⟨2, 3⟩ St.empty [.genesis Example.broot [Example.a, Example.b, Example.c, Example.d] 2])
+      (Example.bhdr 2 1 65 Example.a 6 108)).2 = .reject .turn ∧
+    (Bor.syncHeader ⟨2, 3⟩ (Bor.run ⟨2, 3⟩ St.empty [.genesis Example.broot [Example.a, Example.b, Example.c, Example.d] 2])
+      (Example.bhdr 2 1 65 Example.a 2 107)).2 = .reject .toosoon := by decide
 
 end Poly.Props.C29
